@@ -282,8 +282,12 @@ def bulkLoop (thr : Nat) (skipInAppendMode : Bool) : Table → List Row → List
       | .error e => (t, .err e)
       | .ok () => bulkLoop thr skipInAppendMode (t.pushRow thr r) (batch ++ [r]) rs (n + 1)
 
+/-- The transfer path is taken only for a source table of the same column types whose columns
+feeding NOT NULL columns are themselves NOT NULL (`check_schema_compatibility`); other
+sources go through `insertStmt`.  Rows that could not come from such a source are `.other`. -/
 def bulkStmt (thr : Nat) (t : Table) (rows : List Row) : Table × Out :=
-  bulkLoop thr false t [] rows 0
+  if rows.any (fun r => r.length != t.ncols || !r.all coerceOk || !t.checkNotNull r) then (t, .err .other)
+  else bulkLoop thr false t [] rows 0
 
 /-! #### UPDATE -/
 
